@@ -27,6 +27,10 @@ FAULTS = {
     'undefined-in-if': [['.if nosuch', '.endif'], ['.if 1 + nosuch', '  nop', '.endif']],
     'data-range': ['  .db 256', '  .db -129', '  .dw 65536', '  .dw "ab"'],
     'error-directive': ['.error "stop here"'],
+    'misplaced': [['.dseg', '  nop', '.cseg'], ['.dseg', '  .db 1', '.cseg'], ['.dseg', '  .dw 1', '.cseg'], ['  .byte 2'], ['.eseg', '  ldi r16, 1', '.cseg']],
+    'branch-to-far-label': [['  breq c15_far', '  .org 0x3000', 'c15_far:']],
+    'macro-argument-missing': [['.macro c15_m2', '  ldi @0, @1', '.endm', '  c15_m2 r16']],
+    'alias-errors': [['.def c15_a = r20', '.def c15_a = r21'], ['.def c15_b = r40'], ['.undef c15_never']],
     'directive-operands': ['.org', '.byte 1, 2', '.device', '.equ 5', '.undef nodef_alias', '.device NoSuchChip', '.include'],
 }
 
@@ -92,6 +96,10 @@ class P:
 
 def gen(rng):
     p = P(rng)
+    # now and then a long preamble of lines that assemble to nothing: line numbers with three and four digits
+    k = rng.random()
+    if k < .15:
+        for _ in range(rng.choice([95, 120, 990, 1100])): p.add(rng.choice(['', '; filler', '  // filler', '.equ pre%d = %d' % (len(p.lines), len(p.lines))]))
     p.add('.define FLAGX')
     for _ in range(rng.randrange(3, 12)): p.block(0, True)
     return p
@@ -99,6 +107,11 @@ def gen(rng):
 def src_of(tid, payload):
     try: return bytes.fromhex(payload).decode()
     except Exception: return tid
+
+# which line(s) of a multi-line fault block may be named (1-based within the block); default: the first
+OFFSETS = {('.dseg', '  nop', '.cseg'): [2], ('.dseg', '  .db 1', '.cseg'): [2], ('.dseg', '  .dw 1', '.cseg'): [2], ('.eseg', '  ldi r16, 1', '.cseg'): [2],
+           ('.macro c15_m2', '  ldi @0, @1', '.endm', '  c15_m2 r16'): [2, 4],      # the body line or the call: the property does not say which
+           ('.def c15_a = r20', '.def c15_a = r21'): [2]}
 
 def with_inserted(lines, pos, new):
     new = new if isinstance(new, list) else [new]
@@ -113,6 +126,7 @@ def run(tier, seed, model_ok):
     for pi in range(nprog):
         p = gen(rng)
         text = [l for l, _, _ in p.lines]
+        eol = '\r\n' if rng.random() < .2 else '\n'        # line numbers must not depend on the line-end convention
         progs.append(p)
         trip.append(('b%d' % pi, 'B', vlib.hx('\n'.join(text))))
         # insertion points: before line i, for i such that the new line is assembled: i.e. the line before it and
@@ -141,8 +155,9 @@ def run(tier, seed, model_ok):
                 pos = rng.choice(okpos)
                 v = rng.choice(variants)
                 tid = 'f%d_%s_%d' % (pi, kind, rep)
-                trip.append((tid, 'B', vlib.hx('\n'.join(with_inserted(text, pos, v)))))
-                exp[tid] = ('fault', kind, pos + 1, v, pi)
+                trip.append((tid, 'B', vlib.hx(eol.join(with_inserted(text, pos, v)))))
+                offs = OFFSETS.get(tuple(v), [1]) if isinstance(v, list) else [1]
+                exp[tid] = ('fault', kind, [pos + o for o in offs], v, pi)
                 kinds[kind] += 1
         # duplicate label, after its original
         for (l, at) in p.labels[:2]:
@@ -150,7 +165,7 @@ def run(tier, seed, model_ok):
             if later:
                 pos = rng.choice(later)
                 tid = 'd%d_%s' % (pi, l)
-                trip.append((tid, 'B', vlib.hx('\n'.join(with_inserted(text, pos, l.upper() + ':' if rng.random() < .5 else l + ':')))))
+                trip.append((tid, 'B', vlib.hx(eol.join(with_inserted(text, pos, l.upper() + ':' if rng.random() < .5 else l + ':')))))
                 exp[tid] = ('fault', 'duplicate-label', pos + 1, l + ':', pi)
                 kinds['duplicate-label'] += 1
         # (b) messages everywhere
@@ -169,7 +184,7 @@ def run(tier, seed, model_ok):
                         if kind == 'error': fatal = len(out)
                     kinds['.%s %s' % (kind, 'assembled' if nxt_ok else 'unassembled')] += 1
             tid = 'm%d_%d' % (pi, rep)
-            trip.append((tid, 'B', vlib.hx('\n'.join(out))))
+            trip.append((tid, 'B', vlib.hx(eol.join(out) + (eol if rng.random() < .5 else ''))))
             exp[tid] = ('msgs', expected, fatal, '\n'.join(out), pi)
     # (c) .error / .message inside macro bodies: fatal exactly when the macro is called
     for i in range(20 if tier == 'quick' else 200):
@@ -234,6 +249,23 @@ def run(tier, seed, model_ok):
             trip.append((tid, 'F', '%s -' % vlib.hx(main)))
             exp[tid] = ('incmsgs', list(expected), None, {os.path.relpath(p, g.root): l for p, l in g.files.items()}, None)
             kinds['messages across include files'] += 1
+            # the same tree with ONE faulty line in one of its files: the error names that line of that file
+            import copy
+            g2 = c11.Gen(rng, os.path.join(root, 'u%d' % i))
+            rel = {os.path.relpath(p, g.root): list(l) for p, l in g.files.items()}
+            fpath = rng.choice(sorted(rel))
+            k = rng.randrange(0, len(rel[fpath]) + 1)
+            fault = rng.choice(['  frobnicate r1', '  ldi r16, nosuch', '  ldi r16,, 1', '  .dw nosuch', '.error "in file"', '  ldi r3, 1'])
+            rel[fpath].insert(k, fault)
+            for rp, l in rel.items(): g2.files[os.path.join(g2.root, rp)] = l
+            main2 = os.path.join(g2.root, os.path.relpath(main, g.root))
+            g2.dirs.add(os.path.dirname(main2))
+            c11.materialise(g2)
+            tid2 = 'u%d' % i
+            trees.append((tid2, g2, main2))
+            trip.append((tid2, 'F', '%s -' % vlib.hx(main2)))
+            exp[tid2] = ('incfault', k + 1, fault, {rp: l for rp, l in rel.items()}, fpath)
+            kinds['one fault inside an include tree'] += 1
         impl = vlib.run_impl(trip)
     finally:
         shutil.rmtree(root, ignore_errors=True)
@@ -269,6 +301,11 @@ def run(tier, seed, model_ok):
             if gotl is None or len(gotl) != count or any(not x.startswith(('info' if kind == 'message' else 'warning') + ': again in line: ') for x in gotl):
                 vio.append({'what': 'a message line assembled %d times must give %d entries' % (count, count), 'source': text, 'impl': gotl if gotl is not None else got[:100], 'expected': '%d entries' % count, 'key': 'repeated-message'})
             continue
+        if e[0] == 'incfault':
+            _, line, fault, files, fpath = e
+            if got.split()[:2] != ['ERR', 'line=%d' % line]:
+                vio.append({'what': 'a fault inside an include tree is not reported with the number of its line in its own file', 'files': files, 'faulty_file': fpath, 'faulty_line': fault, 'impl': got[:120], 'expected': 'ERR line=%d' % line, 'key': 'include-fault'})
+            continue
         if e[0] == 'incmsgs':
             m = got.split(' msgs=')[1] if got.startswith('OK') else None
             gotl = None if m is None else ([] if m == '-' else bytes.fromhex(m).decode().split('\n'))
@@ -282,10 +319,12 @@ def run(tier, seed, model_ok):
         got = impl.get(tid, '')
         if e[0] == 'fault':
             _, kind, line, v, _ = e
+            lines_ok = line if isinstance(line, list) else [line]
+            want = ' or '.join('ERR line=%d' % x for x in lines_ok)
             if not got.startswith('ERR'):
-                vio.append({'what': 'a program with one faulty line (%s) builds' % kind, 'faulty_line': v, 'line': line, 'source': src[tid], 'impl': got[:120], 'expected': 'ERR line=%d' % line, 'key': kind})
-            elif got.split()[1] != 'line=%d' % line:
-                vio.append({'what': 'the error for a faulty line (%s) does not name that line' % kind, 'faulty_line': v, 'line': line, 'source': src[tid], 'impl': got[:120], 'expected': 'ERR line=%d' % line, 'key': kind})
+                vio.append({'what': 'a program with one faulty line (%s) builds' % kind, 'faulty_line': v, 'line': lines_ok, 'source': src[tid][-1500:], 'impl': got[:120], 'expected': want, 'key': kind})
+            elif got.split()[1] not in ['line=%d' % x for x in lines_ok]:
+                vio.append({'what': 'the error for a faulty line (%s) does not name that line' % kind, 'faulty_line': v, 'line': lines_ok, 'source': src[tid][-1500:], 'impl': got[:120], 'expected': want, 'key': kind})
         else:
             _, expected, fatal, text, _ = e
             if fatal is not None:
